@@ -106,6 +106,8 @@ type Interp struct {
 	onCall func(cl *Closure, args []Value)
 	onRet  func(cl *Closure, args []Value, res []Value)
 	nilPanics bool
+	extVars   map[string]Value // package-level variables of other packages (identity, or a model value)
+	builders  map[*Ext]*strings.Builder
 	loopLabel   string // label attached to the loop/switch about to start
 	branchLabel string // label of a labelled break/continue in flight
 	defers    *[]deferred // deferred calls of the function being executed
@@ -209,6 +211,12 @@ func (it *Interp) zero(t types.Type) Value {
 		}
 		return Nil{}
 	case *types.Struct:
+		if named, ok := t.(*types.Named); ok && named.Obj().Pkg() != nil && named.Obj().Pkg() != it.pkg && named.Obj().Pkg().Path() != "p" {
+			// a struct of another package (bytes.Buffer, sync.WaitGroup …) is opaque
+			if _, std := it.natives["("+"*"+named.Obj().Pkg().Path()+"."+named.Obj().Name()+").WriteString"]; std || named.Obj().Pkg().Path() == "bytes" || named.Obj().Pkg().Path() == "sync" || named.Obj().Pkg().Path() == "strings" {
+				return &Ext{named.Obj().Pkg().Name() + "." + named.Obj().Name()}
+			}
+		}
 		return it.newObj(t)
 	case *types.Array:
 		s := &SliceV{}
@@ -851,6 +859,15 @@ func (it *Interp) execRange(x *ast.RangeStmt, env *Env) ctrl {
 		}
 	case *MapV:
 		it.fail(x, "range over a map: iteration order is not deterministic")
+	case Nil:
+		// a nil slice, map or function-less iterator: no iteration
+		if tv, ok := it.info.Types[x.X]; ok {
+			switch tv.Type.Underlying().(type) {
+			case *types.Slice, *types.Map:
+				return cNone
+			}
+		}
+		it.fail(x, "range over nil")
 	default:
 		it.fail(x, "range over %s not modelled", describe(coll))
 	}
@@ -1009,7 +1026,12 @@ func (it *Interp) eval(e ast.Expr, env *Env) Value {
 		return it.compositeLit(x, env)
 	case *ast.SelectorExpr:
 		return it.selector(x, env)
+	case *ast.IndexListExpr:
+		return it.eval(x.X, env) // explicit instantiation of a generic function
 	case *ast.IndexExpr:
+		if tv, ok := it.info.Types[x.Index]; ok && tv.IsType() {
+			return it.eval(x.X, env) // explicit instantiation of a generic function: f[T]
+		}
 		base := it.eval(x.X, env)
 		if p, ok := base.(*Ptr); ok {
 			base = p.cell.v // pointer to array: automatic dereference
@@ -1081,6 +1103,13 @@ func (it *Interp) eval(e ast.Expr, env *Env) Value {
 				it.panics(e, "string slice bounds [%d:%d] out of range (len %d)", lo, hi, n)
 			}
 			return b[lo:hi]
+		}
+		if _, isNil := base.(Nil); isNil {
+			// slicing a nil slice: only [0:0] is in range
+			if lo == 0 && hi <= 0 {
+				return &SliceV{elems: []Value{}}
+			}
+			it.panics(e, "slice bounds [%d:%d] out of range (nil slice)", lo, hi)
 		}
 		it.fail(e, "slice of %s", describe(base))
 	case *ast.StarExpr:
@@ -1328,7 +1357,16 @@ func (it *Interp) selector(x *ast.SelectorExpr, env *Env) Value {
 		}
 		return &Native{o.FullName(), nil}
 	case *types.Var:
-		return &Ext{o.Pkg().Name() + "." + o.Name()}
+		key := o.Pkg().Name() + "." + o.Name()
+		if v, ok := it.extVars[key]; ok {
+			return v
+		}
+		if it.extVars == nil {
+			it.extVars = map[string]Value{}
+		}
+		e := &Ext{key}
+		it.extVars[key] = e // one value per package variable (os.Stdout is os.Stdout)
+		return e
 	}
 	it.fail(x, "qualified identifier %s not modelled", x.Sel.Name)
 	return nil
